@@ -34,6 +34,9 @@ C02.11: the requested alignment is the Umeyama fit over all / the first n
 pose pairs, estimate onto reference (instances of C04.1-3); every pipeline
 step of rpe() runs exactly when its own option asks for it, whatever the other
 options are.
+C02.13 (wave 7): the pair-filter dispatch of id_pairs_from_delta — delta,
+tolerance, angle unit and all-pairs switch reach the filter parameter of that
+meaning (instances of C10.6).
 """
 UNDECIDED = [
     "numerical agreement of the error values with the definition; drift "
